@@ -200,6 +200,13 @@ class SccCaptionParagraph:
     if new_cursor_position < 0:
       self._current_line.indent(new_cursor_position)
 
+    line_length = self._current_line.get_length()
+
+    if new_cursor_position > line_length:
+      # the cells between the end of the text of the row and the new cursor position are blank
+      self._current_line.set_cursor(line_length)
+      self._current_line.add_text(" " * (new_cursor_position - line_length))
+
     self._current_line.set_cursor(new_cursor_position)
 
   def get_lines(self) -> Dict[int, SccCaptionLine]:
